@@ -22,8 +22,10 @@ from typing import Any, Dict, List, Optional, Sequence, Tuple
 from .. import clx, core, mmx, net as N, proto as P
 
 S8, U8, Z8, G0, UNK = 1001, 1002, 1003, 1004, 1999
+L8 = 1005  # a legacy ("v1") definition: plain ctypes fields, registered with @msg_def - no type_hash, no type_size
+HUGE = (1 << 20) + 5  # a payload larger than any buffer the client allocates in advance
 HASH = {S8: 0x51515151, U8: 0x52525252, Z8: 0x53535353, G0: 0x54545454}
-SIZE = {S8: 8, U8: 8, Z8: 8, G0: 0, P.MT_ACKNOWLEDGE: 0}
+SIZE = {S8: 8, U8: 8, Z8: 8, G0: 0, P.MT_ACKNOWLEDGE: 0, L8: 8}
 _DEFS = False
 
 
@@ -40,6 +42,13 @@ def ensure_defs():
         if n:
             ns["_fields_"] = [("raw", ctypes.c_ubyte * n)]
         pyrtma.message_def(MessageMeta(f"MDF_VF8_{mt}", (MessageData,), ns))
+
+    class MDF_VF8_LEGACY(MessageData):
+        _fields_ = [("raw", ctypes.c_ubyte * 8)]
+        type_id = L8
+        type_name = "VF8_LEGACY"
+
+    pyrtma.msg_def(MDF_VF8_LEGACY)
     _DEFS = True
 
 
@@ -84,6 +93,20 @@ def mk(kind: str, tc: bool, i: int) -> bytes:
         return f(S8, pay[:8], reserved=HASH[S8] ^ 1)
     if kind == "ver0":
         return f(S8, pay[:8], reserved=0)
+    # frames of the legacy type (senders of that generation leave the version field empty)
+    if kind == "leg-good":
+        return f(L8, pay[:8], reserved=0)
+    if kind == "leg-smaller":
+        return f(L8, pay[:4], reserved=0)
+    if kind == "leg-larger":
+        return f(L8, pay[:12], reserved=0)
+    if kind == "leg-zero":
+        return f(L8, b"", reserved=0)
+    # undecodable frames with a payload of more than a megabyte
+    if kind == "unk-huge":
+        return f(UNK, (pay * (HUGE // 12 + 1))[:HUGE])
+    if kind == "larger-huge":
+        return f(S8, (pay * (HUGE // 12 + 1))[:HUGE], reserved=HASH[S8])
     raise KeyError(kind)
 
 
@@ -243,6 +266,9 @@ def run_case(case) -> Dict[str, Any]:
             c.subscribe([S8, G0, Z8])
             c.pause_subscription([Z8])
             st = ({S8, G0}, False)
+            if case.get("legacy"):
+                c.subscribe([L8])
+                st = ({S8, G0, L8}, False)
             if case.get("init") == "all":
                 c.subscribe([P.ALL_MESSAGE_TYPES])
                 st = (set(), True)
@@ -401,6 +427,25 @@ def cases(tier: str) -> List[Dict[str, Any]]:
     for tc in (False, True):
         for seq in itertools.product(("good", "unsub", "larger", "signal"), repeat=3):
             out.append(dict(tc=tc, kinds=list(seq), timeout=0.1, ack=False, sync=False, init="all"))
+    # frames of a type whose local definition is of the legacy kind, right and wrong sizes, among frames of current definitions
+    LEG = ("leg-good", "leg-smaller", "leg-larger", "leg-zero", "good", "larger", "unkN")
+    for tc in (False, True):
+        for n in (1, 2, 3):
+            for seq in itertools.product(LEG, repeat=n):
+                if not any(k.startswith("leg-") for k in seq) or (n == 3 and (tc or seq[2] not in ("good", "leg-good"))):
+                    continue
+                for to, ack, sync, init in ((0.1, False, False, None), (0, True, True, None), (-1, False, True, "all")):
+                    d = dict(tc=tc, kinds=list(seq), timeout=to, ack=ack, sync=sync, legacy=True)
+                    if init:
+                        d["init"] = init
+                    out.append(d)
+    # an undecodable frame carrying more than a megabyte, then ordinary frames
+    for tc in (False, True):
+        for big in ("unk-huge", "larger-huge"):
+            for seq in ((big, "good"), ("good", big, "good"), (big, big, "good"), (big, "unkN", "good")):
+                for to, ack, sync in ((0.1, False, False), (-1, True, True)):
+                    out.append(dict(tc=tc, kinds=list(seq), timeout=to, ack=ack, sync=sync))
+                out.append(dict(tc=tc, kinds=list(seq), timeout=0.1, ack=False, sync=True, split=HUGE // 2))
     # discard_messages() while the tail of a frame is still on its way (cut at every offset)
     for tc in (False, True):
         flen = len(mk("good", tc, 1))
